@@ -27,7 +27,7 @@ def _worker(args):
     kind, idx, tier, modnames = args
     for m in modnames:
         importlib.import_module(m)
-    from pyvc.verify import verify_contract, verify_lemma
+    from pyvc.verify import verify_contract, verify_lemma, verify_frame
     contracts = {c.name: c for c in S.REGISTRY}
     for c in S.REGISTRY:
         try:
@@ -37,6 +37,8 @@ def _worker(args):
     try:
         if kind == "contract":
             return verify_contract(S.REGISTRY[idx], contracts, tier)
+        if kind == "frame":
+            return verify_frame(S.FRAMES[idx], tier)
         return verify_lemma(S.LEMMAS[idx], tier)
     except Exception:
         from pyvc.verify import FnResult
@@ -185,6 +187,9 @@ def main(argv):
     for idx, l in enumerate(S.LEMMAS):
         if prop in l.property_ids:
             jobs.append(("lemma", idx, tier, modnames))
+    for idx, fr in enumerate(S.FRAMES):
+        if prop in fr.property_ids:
+            jobs.append(("frame", idx, tier, modnames))
     if jobs:
         nproc = min(int(os.environ.get("VERIF_JOBS", "16")), len(jobs))
         ctx = multiprocessing.get_context("fork")
@@ -229,6 +234,21 @@ def main(argv):
                 undecided.append(ob["name"])
                 continue
             # refuted
+            if r.target.startswith("frame::"):
+                # the effect analysis names the statement and the call chain, not an input
+                path = os.path.join(ROOT, "replay", prop, safe(ob["name"]) + ".json")
+                os.makedirs(os.path.dirname(path), exist_ok=True)
+                with open(path, "w") as f:
+                    json.dump({"property": prop, "obligation": ob["name"], "kind": "frame",
+                               "verifier_output": ob.get("witness"), "note": "statements that may modify the argument (may-alias analysis over the real source); no concrete input is produced"}, f, indent=1)
+                k = matches_known(known, prop, ob["name"], None, None)
+                if k:
+                    known_hits.append(k)
+                elif ob["name"] in lock:
+                    violations.append((ob["name"], path, "no-failing-input-found"))
+                else:
+                    undecided.append(ob["name"] + " (frame obligation refuted, not in lock: the analysis over-approximates aliasing)")
+                continue
             if r.target.startswith("lemma::"):
                 path = os.path.join(ROOT, "replay", prop, safe(ob["name"]) + ".json")
                 os.makedirs(os.path.dirname(path), exist_ok=True)
